@@ -363,6 +363,10 @@ class BusCookieAuthenticator :
         hash_str = None
         shash = 1
         try:
+            if isinstance(response, str):
+                # BusAuthenticator decodes the client's response
+                response = response.encode('ascii')
+
             client_challenge, hash_str = response.split()
 
             tohash = (
